@@ -96,14 +96,17 @@ def is_ltr(u):
     return sc not in ("Zyyy", "Zinh") and ud.script_horizontal_direction(sc, "LTR") == "LTR"
 
 
-def classify_model_section(ctx):
+def classify_model_section(ctx, func=None, keys=(("LTR", "L"), ("RTL", "R")), chars=None, tag="classify"):
     """util.classifyGlyphs against Mark/Direction.v on random substitution graphs: a cmap of LTR / RTL / neutral characters,
-    GSUB single substitutions (compiled by feaLib, closed by the fontTools subsetter) and designspace-rule substitutions"""
+    GSUB single substitutions (compiled by feaLib, closed by the fontTools subsetter) and designspace-rule substitutions.
+    `func` is the character property (default: the script direction the cursive writer uses; C05 passes the kern writer's
+    bidi type), `keys` the property values paired with the generator's kinds, `chars` the characters of each kind."""
     from fontTools.ttLib import TTFont
     from fontTools.feaLib.builder import addOpenTypeFeaturesFromString
     from ufo2ft.util import classifyGlyphs, unicodeScriptDirection
-    rng = ctx.subrng("classify-model")
-    CH = {"L": [0x61, 0x62, 0x63, 0x3B1], "R": [0x627, 0x628, 0x5D0], "N": [0x2E, 0x2C, 0x30]}
+    func = func or unicodeScriptDirection
+    rng = ctx.subrng(tag + "-model")
+    CH = chars or {"L": [0x61, 0x62, 0x63, 0x3B1], "R": [0x627, 0x628, 0x5D0], "N": [0x2E, 0x2C, 0x30]}
     cases, meta = [], []
     for i in range(ctx.budget(60, 400)):
         n = rng.randint(3, 9)
@@ -136,17 +139,17 @@ def classify_model_section(ctx):
         case = {"cmap": {hex(u): g for u, g in cmap.items()}, "gsub_rules": [[list(a), b] for a, b in gsub_edges] if has_gsub else None,
                 "extra_substitutions": extra_edges}
         try:
-            got = classifyGlyphs(unicodeScriptDirection, cmap, gsub, extras or None)
+            got = classifyGlyphs(func, cmap, gsub, extras or None)
         except Exception as e:
             ctx.spec_failure(case, "classifyGlyphs raised %s: %s" % (type(e).__name__, e))
             continue
-        ctx.count(); ctx.klass("classify: gsub=%s extras=%s" % (has_gsub, bool(extra_edges)))
+        ctx.count(); ctx.klass("%s: gsub=%s extras=%s" % (tag, has_gsub, bool(extra_edges)))
         if extra_edges and has_gsub:
             ctx.nontriv(("cl", i, ctx.scale))
         gl = lambda xs: G.lst([G.s(x) for x in xs], "str")
         ge = lambda es: G.lst([G.tup(G.s(a), G.s(b)) for a, b in es], "(str * str)")
         gr = lambda es: G.lst([G.tup(gl(a), G.s(b)) for a, b in es], "rule")
-        for key, kk in (("LTR", "L"), ("RTL", "R")):
+        for key, kk in keys:
             init = [nm for nm in names if kinds.get(nm) == kk]
             if not init and key not in got:
                 continue
